@@ -25,7 +25,7 @@ func init() {
 	register(&propDef{
 		ID: "C19",
 		Meta: propMeta{
-			Explanation: "Decides structural necessary conditions (nothing is executed): (R19a) the byte width EcdsaSignature.Pack pads r and s to is data-dependent on the curve (a parameter of Pack, whose call-site argument is the signing key's Curve, or a Curve.Params() value) and not only on the bit lengths of r and s; the buffer is 2*w bytes and the halves are [0:w] and [w:], the layout UnpackEcdsaSignature splits; (R19b) xmldsig.finishSignature converts DER to r||s exactly under the *ecdsa.PublicKey type test and xmldsig.Verify converts back exactly under pubtype==\"ecdsa\"; (R19c) the algorithm tables round-trip by constant folding of the source literals: HashUris and hashNames have the same keys, every HashUris value is an accepted prefix followed by the hash name, the prefixes and key names the signer emits are the ones parseAlgs accepts, the canonicalisation and transform URIs the signer writes are the ones Verify requires; (R19d) the enveloped-signature transform: Sign removes an existing Signature before digesting and attaches the new one after, Verify detaches the Signature before digesting the reference; SerializeCanonical works on a copy with all three canonical write settings on and drops comments/PIs; (R19e) the attribute ordering function resolves prefixes to namespace URIs (Canonical XML 2.2/4.8 orders by URI, not prefix) and orders namespace declarations first; (R19f) appmanifest.Sign and the VSIX signer take the public-key token, publisher identity, signer and chain from one and the same certificate object. (R19g) xmldsig.Verify fails closed: no failed signature check and no reference-digest mismatch can end in a success return (shared with C02 R02d).",
+			Explanation: "Decides structural necessary conditions (nothing is executed): (R19a) the byte width EcdsaSignature.Pack pads r and s to is data-dependent on the curve (a parameter of Pack, whose call-site argument is the signing key's Curve, or a Curve.Params() value) and not only on the bit lengths of r and s; the buffer is 2*w bytes and the halves are [0:w] and [w:], the layout UnpackEcdsaSignature splits; (R19b) xmldsig.finishSignature converts DER to r||s exactly under the *ecdsa.PublicKey type test and xmldsig.Verify converts back exactly under pubtype==\"ecdsa\"; (R19c) the algorithm tables round-trip by constant folding of the source literals: HashUris and hashNames have the same keys, every HashUris value is an accepted prefix followed by the hash name, the prefixes and key names the signer emits are the ones parseAlgs accepts, the canonicalisation and transform URIs the signer writes are the ones Verify requires; (R19d) the enveloped-signature transform: Sign removes an existing Signature before digesting and attaches the new one after, Verify detaches the Signature before digesting the reference; SerializeCanonical works on a copy with all three canonical write settings on and drops comments/PIs, and nothing in the module asks the XML parser to preserve CDATA sections or duplicate attributes; R19a also requires every curve bit length to be rounded up to bytes; (R19e) the attribute ordering function resolves prefixes to namespace URIs (Canonical XML 2.2/4.8 orders by URI, not prefix) and orders namespace declarations first; (R19f) appmanifest.Sign and the VSIX signer take the public-key token, publisher identity, signer and chain from one and the same certificate object. (R19g) xmldsig.Verify fails closed: no failed signature check and no reference-digest mismatch can end in a success return (shared with C02 R02d).",
 			NotDecided:  "equality of SerializeCanonical with W3C exclusive c14n on arbitrary documents (redundant namespace redeclarations, xml:* attribute inheritance, InclusiveNamespaces, character escaping are delegated to etree's writer and not examined); whether re-serialised signed documents still verify; correctness of PublicKeyToken/PublisherIdentity values themselves.",
 			Assumptions: []string{"etree's CanonicalEndTags/CanonicalText/CanonicalAttrVal settings implement the c14n text rules", "W3C Canonical XML 1.0 section 2.2/3.3 as the reference for attribute order (PoC uses the spec's own example)"},
 		},
@@ -141,6 +141,28 @@ func c19Pack(c *Ctx) {
 	dep := dependsOn(width, curveDerived)
 	c.Check(dep, "R19a", p.FName(pack)+" width derives from the curve", p.Pos(pack.Pos()), "the padding width depends on a curve parameter",
 		"the width r and s are padded to is computed only from BitLen() of r and s themselves: whenever both have leading zero bytes (about 1 in 4 signatures on P-521, 1 in 65536 on P-256) the SignatureValue is shorter than 2*ceil(n/8) bytes, which XML-DSig 6.4.3 verifiers reject")
+	// the width is a whole number of bytes: a bit length is rounded up, never down (P-521: 521 bits
+	// are 66 bytes, not 65)
+	roundsDown := ""
+	dependsOn(width, func(x ssa.Value) bool {
+		bo, ok := x.(*ssa.BinOp)
+		if !ok {
+			return false
+		}
+		if !((bo.Op == token.QUO && isIntConst(bo.Y, 8)) || (bo.Op == token.SHR && isIntConst(bo.Y, 3))) {
+			return false
+		}
+		if !dependsOn(bo.X, curveDerived) {
+			return false
+		}
+		if add, isAdd := bo.X.(*ssa.BinOp); isAdd && add.Op == token.ADD && (isIntConst(add.X, 7) || isIntConst(add.Y, 7)) {
+			return false
+		}
+		roundsDown = p.Pos(bo.Pos())
+		return false
+	})
+	c.Check(roundsDown == "", "R19a", p.FName(pack)+" width rounds the curve's bit length up", p.Pos(pack.Pos()), "every bits/8 on a curve parameter is (bits+7)/8",
+		"the byte width is a curve bit length divided by 8 without rounding up (at "+roundsDown+"): on P-521 (521 bits) r and s are padded to 65 bytes instead of 66, so a quarter of the signatures come out 130 bytes long and fixed-width verifiers reject them")
 	// call sites hand over the signing key's curve
 	n := 0
 	for _, fn := range p.Funcs {
@@ -496,6 +518,10 @@ func c19Transform(c *Ctx) {
 	for _, f := range []string{"CanonicalEndTags", "CanonicalText", "CanonicalAttrVal"} {
 		c.Check(settings[f], "R19d", "SerializeCanonical sets "+f, p.Pos(ser.Pos()), "", "the canonical serialisation no longer sets WriteSettings."+f+": empty elements / text / attribute values are written in non-canonical form")
 	}
+	for _, f := range etreeReadSettingStores(p) {
+		c.Check(f.OK, "R19d", f.Key, f.Pos, "", f.Detail)
+	}
+	c.runControl("R19d read settings control (ctl/etree.Load)", "etree.Load", etreeReadSettingStores)
 	cp := p.callsIn(ser, "(*github.com/beevik/etree.Element).Copy")
 	walker := c19Walker(p)
 	var wa []ssa.CallInstruction
@@ -892,6 +918,33 @@ func c19Walker(p *Prog) *ssa.Function {
 		if len(p.callsIn(f, "sort.Slice", "sort.SliceStable")) > 0 {
 			if out == nil || p.FName(f) < p.FName(out) {
 				out = f
+			}
+		}
+	}
+	return out
+}
+
+// etreeReadSettingStores: documents that get canonicalised are parsed with the default read
+// settings. PreserveCData keeps CDATA sections flagged so that the serialiser writes them back
+// verbatim (Canonical XML replaces them by their escaped character content);
+// PreserveDuplicateAttrs keeps attributes a conforming parser rejects.
+func etreeReadSettingStores(p *Prog) (out []gFinding) {
+	for _, fn := range p.Funcs {
+		n := 0
+		for _, b := range fn.Blocks {
+			for _, in := range b.Instrs {
+				st, ok := in.(*ssa.Store)
+				if !ok {
+					continue
+				}
+				tn, f, _ := p.fieldAddr(st.Addr)
+				if !strings.HasSuffix(tn, "etree.ReadSettings") || (f != "PreserveCData" && f != "PreserveDuplicateAttrs") {
+					continue
+				}
+				n++
+				bv, isB := boolConst(st.Val)
+				out = append(out, gFinding{Key: fmt.Sprintf("%s sets ReadSettings.%s#%d", p.FName(fn), f, n), Pos: p.Pos(st.Pos()), OK: isB && !bv,
+					Detail: "the XML parser is told to keep " + f + ": the tree then serialises CDATA sections (or duplicate attributes) verbatim, so the digest is taken over a form that is not Canonical XML and no other verifier reproduces it"})
 			}
 		}
 	}
